@@ -533,6 +533,53 @@ def classify_order(fmt, case, entries, want_ids, want_vals):
 
 
 INI_LINE_START = "merge-ws-fold-ini-comment-leaves-line-start"
+INC_REGION = "merge-inc-blank-lines-leave-filter-region"
+
+
+def inc_safe_shape(versions):
+    """version lists for which the merge keeps every empty line inside a filter region
+    (C15_reparse_inc and the ordinary generator's shape): no version has an empty line or a
+    standalone comment; or every version starts with `#filter emptyLines` and either none has
+    `#unfilter emptyLines` or every version ends with it"""
+    if all(it[0] not in ("blank", "com") for v in versions for it in v):
+        return True
+    def filters(v):
+        return [i for i, it in enumerate(v) if it == ("pi", "filter emptyLines")]
+    def unfilters(v):
+        return [i for i, it in enumerate(v) if it == ("pi", "unfilter emptyLines")]
+    if not all(filters(v) == [0] for v in versions):
+        return False
+    if all(unfilters(v) == [] for v in versions):
+        return True
+    return all(unfilters(v) == [len(v) - 1] for v in versions)
+
+
+def classify_inc_junk(case, entries, want_ids, want_vals):
+    """the one recognised family of junk in a merge of junk-free .inc versions: DefinesParser
+    takes a run of more than one newline as Whitespace only between `#filter emptyLines` and
+    `#unfilter emptyLines`; merge_channels reorders entries (the key order of the newest
+    version wins), so an empty line of one version can land outside the filter region of the
+    merged file when in some version `#filter emptyLines` is not the first item, or
+    `#unfilter emptyLines` is not the last, or only some versions have it.  Recognised only
+    when: every version is junk-free, the version list is not of a safe shape
+    ([inc_safe_shape]), every junk entry of the output is a run of newlines, and the
+    output with every newline run reduced to one newline re-parses junk-free to the expected
+    items in the expected order.  Anything else stays merge-reparse-junk."""
+    name = FNAME["inc"]
+    for t in case["texts"]:
+        if any(ckind(e) == K_JUNK for e in walk_bytes(name, t.encode("utf-8"))):
+            return "merge-reparse-junk"
+    if inc_safe_shape(case["items"]):
+        return "merge-reparse-junk"
+    if any(ckind(e) == K_JUNK and e.all.strip("\n") != "" for e in entries):
+        return "merge-reparse-junk"
+    out_text = "".join(e.all for e in entries)
+    repaired = walk_bytes(name, re.sub(r"\n+", "\n", out_text).lstrip("\n").encode("utf-8"))
+    if any(ckind(e) == K_JUNK for e in repaired):
+        return "merge-reparse-junk"
+    if flat_parsed("inc", repaired) == flat_expected("inc", case["items"], want_ids, want_vals):
+        return INC_REGION
+    return "merge-reparse-junk"
 
 
 def classify_junk(fmt, case, entries, want_ids, want_vals):
@@ -544,6 +591,8 @@ def classify_junk(fmt, case, entries, want_ids, want_vals):
     of further comment lines inside the junk text) taken away the text
     re-parses without junk to the expected comment lines and keyed items in the expected
     order.  Anything else stays merge-reparse-junk."""
+    if fmt == "inc":
+        return classify_inc_junk(case, entries, want_ids, want_vals)
     if fmt != "ini":
         return "merge-reparse-junk"
     pieces, prev = [], None
@@ -645,6 +694,44 @@ def gen_indented_ini(rng):
                    if it[0] == "ent" and rng.random() < 0.35}
         texts.append(render("ini", v, 0, indents))
     return {"fmt": "ini", "items": case["items"], "texts": texts}
+
+
+def gen_inc_regions(rng):
+    """junk-free .inc versions whose `#filter emptyLines` / `#unfilter emptyLines` sit anywhere:
+    per version a random key order, one filter region [i, j) (open-ended without #unfilter),
+    empty lines and standalone comments only inside it"""
+    nkeys = rng.randint(1, 6)
+    versions = []
+    for _ in range(rng.randint(2, 3)):
+        keys = [k for k in range(nkeys) if rng.random() < 0.8]
+        if rng.random() < 0.5:
+            rng.shuffle(keys)
+        n = len(keys)
+        i = rng.randint(0, n) if rng.random() < 0.7 else 0
+        j = rng.randint(i, n)
+        closed = rng.random() < 0.6
+        has_filter = rng.random() < 0.85
+        items = []
+        for pos in range(n + 1):
+            if has_filter and pos == i:
+                items.append(("pi", "filter emptyLines"))
+            if has_filter and closed and pos == j:
+                items.append(("pi", "unfilter emptyLines"))
+            if pos == n:
+                break
+            inside = has_filter and pos >= i and not (closed and pos >= j)
+            if inside and rng.random() < 0.4:
+                items.append(("blank",))
+            if inside and rng.random() < 0.15:
+                items.append(("com", rng.choice(COMMENTS)))
+            items.append(("ent", key_name("inc", keys[pos]), render_value("inc", rng, "L"),
+                          rng.choice(COMMENTS) if rng.random() < 0.2 else None))
+        versions.append(items)
+    texts = [render("inc", v) for v in versions]
+    for t in texts:
+        if not t or any(ckind(e) == K_JUNK for e in walk_bytes(FNAME["inc"], t.encode("utf-8"))):
+            return None
+    return {"fmt": "inc", "items": versions, "texts": texts}
 
 
 # fixed cases of the ordinary stream (run through the same oracle as the generated ones):
@@ -850,6 +937,25 @@ def run(chk, runner_ok):
         ireqs.append((0, [s2l(name), model_versions(name, case["texts"])]))
     if model:
         chk.correspond("CHANNELS-ini-indent", icases, iimpl, model.call(ireqs))
+    # ---- CHANNELS-inc-regions: junk-free .inc versions with `#filter emptyLines` /
+    # `#unfilter emptyLines` anywhere; the listed finding merge-inc-blank-lines-leave-filter-region
+    rcases, rimpl, rreqs = [], [], []
+    for i in range(chk.n(400, 4000)):
+        case = gen_inc_regions(rng)
+        if case is None:
+            continue
+        name = FNAME["inc"]
+        res, text = impl_merge(name, case["texts"])
+        chk.count(("chr", case["texts"]))
+        if text is None:
+            chk.fail("merge-raises", {"fmt": "inc", "versions": case["texts"]}, res)
+        else:
+            oracle_merge(chk, case, text)
+        rcases.append({"fmt": "inc", "versions": case["texts"]})
+        rimpl.append(res)
+        rreqs.append((0, [s2l(name), model_versions(name, case["texts"])]))
+    if model:
+        chk.correspond("CHANNELS-inc-regions", rcases, rimpl, model.call(rreqs))
     # ---- CHANNELS-wild: outside the property's domain, model against implementation only
     wcases, wimpl, wreqs = [], [], []
     for i in range(chk.n(800, 8000)):
@@ -945,6 +1051,10 @@ WITNESSES = [
     ("merge-ws-fold-loses-blank-line", "properties",
      ["a = 1\n   b = 2\n", "a = 1\n# note\n\n"]),
     (INI_LINE_START, "ini", ["a=1\n;c\n\nb=2\n", "a=1\n\n  b=2\n"]),
+    (INC_REGION, "inc", ["#filter emptyLines\n#unfilter emptyLines\n#define y 1\n",
+                         "#filter emptyLines\n#define y 1\n\n#define z 2\n"]),
+    (INC_REGION, "inc", ["#define y 1\n#filter emptyLines\n",
+                         "#filter emptyLines\n#define y 1\n\n#define z 2\n"]),
 ]
 
 
@@ -964,6 +1074,16 @@ def run_witnesses(chk, only=None):
                                  "version's newline+indentation, the comment is glued to the entity"})
 
 
+        if sig == INC_REGION and text is not None:
+            entries = walk_bytes(FNAME[fmt], text.encode("utf-8"))
+            junk = [e.all for e in entries if ckind(e) == K_JUNK]
+            if junk and all(j.strip("\n") == "" for j in junk):
+                chk.fail(sig, {"fmt": fmt, "versions": texts},
+                         {"output": text, "junk": junk,
+                          "why": "the older version's empty line follows a define that the newer "
+                                 "version has outside its `#filter emptyLines` region; the merged "
+                                 "order is the newer version's, so the empty line leaves the "
+                                 "region and DefinesParser re-parses it as Junk"})
         if sig == INI_LINE_START and text is not None:
             entries = walk_bytes(FNAME[fmt], text.encode("utf-8"))
             junk = [e.all for e in entries if ckind(e) == K_JUNK]
